@@ -149,8 +149,9 @@ def _preset(preset):
 
     def sps(self):
         o(self)
+        mine = preset.get(str(getattr(self, "client_port", "")), {})
         for side, tab in (("c", self.packet_number_client), ("s", self.packet_number_server)):
-            for name, val in preset.get(side, {}).items():
+            for name, val in mine.get(side, {}).items():
                 for k in tab:
                     if k[0].name == name:
                         tab[k] = int(val)
